@@ -175,8 +175,8 @@ def regionMatches (a : RegionArgs) (r : Row) : Bool :=
    else
      match truthy a.start, truthy a.stop with
      | some s, some e =>
-       -- the three-way OR of the SQL, with region_start/region_end swapped as the code does
-       (ge? r.start e && le? r.start s) || (le? r.start e && ge? r.stop s) || (ge? r.stop e && le? r.stop s)
+       -- `start <= region_end AND end >= region_start`
+       le? r.start e && ge? r.stop s
      | some s, none => gt? r.stop s
      | none, some e => lt? r.start e
      | none, none => true) &&
